@@ -63,9 +63,9 @@ def templates(level):
     """level 'full' or 'reduced'"""
     if level == 'full':
         starts, ends, ctrls, arcs = ['cont', 'new', 'back', 'ulp'], ['fresh', 'sub', 'first', 'interior'], \
-            ['generic', 'reflect', 'reflect2', 'at_start'], range(len(ARCS))
+            ['generic', 'reflect', 'reflect2', 'at_start', 'reflect_other'], range(len(ARCS))
     else:
-        starts, ends, ctrls, arcs = ['cont', 'new'], ['fresh', 'sub'], ['generic', 'reflect', 'at_start'], [0]
+        starts, ends, ctrls, arcs = ['cont', 'new'], ['fresh', 'sub'], ['generic', 'reflect', 'at_start', 'reflect_other'], [0]
     out = []
     for st in starts:
         for en in ends:
@@ -148,6 +148,14 @@ def build(word, emb, skip=0):
                 c1 = (start + start - pc) if ctrl == 'reflect' else (start + (start - pc))
                 if ctrl == 'reflect2' and c1 == (start + start - pc):
                     return None, 'reflect2_same_as_reflect'
+            elif ctrl == 'reflect_other':
+                # the mirror image of the last control point of a preceding curve of the OTHER Bezier kind (a cubic
+                # after a quadratic or the reverse): SVG's S / T shorthand does not apply across kinds
+                other = {'Q': CubicBezier, 'C': QuadraticBezier}[kind]
+                if not (isinstance(prev, other) and st == 'cont'):
+                    return None, 'reflect_other_without_previous_curve_of_other_kind'
+                pc = prev.control if kind == 'C' else prev.control2
+                c1 = start + start - pc
             elif ctrl == 'at_start':
                 c1 = start
             else:
